@@ -262,6 +262,33 @@ NOT_YET = "check not built yet in this session (planned, see DESIGN.md section 9
 ALL = [f"C{i:02d}" for i in range(1, 21)]
 
 
+# Behaviour added after the three waves of independently seeded changes (DESIGN.md 10.6); appended to the level text.
+ADDED = {
+    "C01": "Additionally the addresses of all verified peers of the receiver are compared around every non-authentic delivery.",
+    "C03": "Also: the statistics endpoint listening in every second case; correctly ENCRYPTED cells (sender holds the session keys) "
+           "with empty / one-byte / short messages; slightly bumped length fields; a nested payload must end where its length prefix "
+           "says; a 'codec' family hands corrupted genuine encodings of all 58 shipped Serializable classes to unpack_serializable(_list) "
+           "at offset 0 and behind a pad.",
+    "C04": "Also: IPv8-shaped and own-prefix payloads over the e2e circuit, a dishonest rendezvous point reflecting relayed cells, the exit "
+           "giving its side up while the outside host still answers during the removal grace period.",
+    "C05": "Also: created answers re-labelled with a live exit id, genuine signed overlay messages replayed from the adversary's address "
+           "(neighbour addresses of backward entries compared), answers to plaintext creates made up by an off-path forger.",
+    "C07": "Also: exits whose flags the sender never learnt and a BitTorrent-only exit judged by its real flags, a second TunnelEndpoint "
+           "of the process with the same overlay id, and: what a circuit is given is exactly what the overlay handed to its endpoint. "
+           "Thorough enumerates depth 6 over 12 symbols completely and samples lengths 7..10.",
+    "C08": "Also: extends to a required exit the relay never met (the relay waits in a simulated slow DHT peer lookup) under duplication.",
+    "C09": "Also: the circuit's first data packet chased by the teardown (gaps 0..50 ms, remove_tunnel_delay 0/5, socket opening yields "
+           "like asyncio).",
+    "C10": "Also: caches with two managed futures and partial answers completed by the user.",
+    "C11": "Also: TaskManager tasks with asynchronous clean-up, one ipv8_service case per default overlay, the broadcast bootstrapper, a "
+           "peer sending create + data to a tunnel overlay while it is being unloaded.",
+    "C13": "Also: candidates known to the introducer from an earlier life on another port, NATs handing out the same private /24.",
+    "C16": "Also: one Token object offered to the trees of two identities.",
+    "C17": "Also: two pseudonyms of one user on one IdentityManager.",
+    "C19": "Also: the batching API (with database:), a 130-token chain, and set iteration order at reload chosen by the simulator.",
+}
+
+
 def main() -> None:
     checks = []
     for pid in ALL:
@@ -275,7 +302,8 @@ def main() -> None:
             "evidence_file": f"/verif/evidence/{pid}.json",
             "replay_cmd_template": f"./check {pid} --replay {{path}}",
             "engine": "simkit",
-            "level_claimed": {"category": c["level"], "text": c["text"], "design_ref": c["design"]},
+            "level_claimed": {"category": c["level"], "text": c["text"] + (" " + ADDED[pid] if pid in ADDED else ""),
+                              "design_ref": c["design"]},
             "level_note": c["note"],
             "technique": c["technique"],
         })
